@@ -31,6 +31,28 @@ Theorem C16_interval :
 Proof. repeat split. Qed.
 Print Assumptions C16_interval.
 
+(* The same, from the translated processor: Gen/AuditProg.v is REGENERATED on every run from Auditd.Read and
+   interpreted by Model/AuditIR.v with the correlator's two cleanups as oracles [csess] (DeleteUsersWithoutLoginsBefore)
+   and [clogins] (DeleteRemoteUserLoginsBefore).  The arm of Read's select that the clean-up ticker (period =
+   the interval, see C15_processor_from_source_setup) fires: both cleanups run, on the tracker the callback and
+   the login arm use, with ONE cut-off  time.Now() - staleDataCleanupInterval ; nothing else happens and the loop
+   goes on. *)
+From AM Require Model.AuditProc Model.AuditIR Gen.AuditProg Proofs.AuditIRTie.
+Theorem C16_cleanup_arm_from_source :
+  forall (line msg event cerr login AS : Type) (is_empty : line -> bool) (parse : line -> option msg)
+         (mseq : msg -> BinNums.N) (mtype : msg -> nat) (coalesce : list msg -> option event) (old : event -> bool)
+         (audit : AS -> event -> AS * option cerr) (rlogin : AS -> login -> AS * option cerr)
+         (csess clogins : AS -> AuditIR.tmv -> AS) (dur : BinNums.Z -> nat)
+         (now : nat) (p : AuditProc.pst line msg event cerr AS),
+  AuditIR.read_arm_gen line msg event cerr login AS is_empty parse mseq mtype coalesce old audit rlogin csess clogins dur
+                       AuditProg.gen_audit (AuditIR.EvTick line login now) p =
+  let cut := AuditIR.TmNowAdd now (- Gen.Consts.staleDataCleanupInterval_ns) in
+  Some (AuditIR.set_as line msg event cerr AS
+          (clogins (csess (AuditIR.as_of line msg event cerr AS p) cut) cut) p,
+        AuditProc.RNone line msg cerr, None).
+Proof. exact AuditIRTie.read_arm_cleanup_from_source. Qed.
+Print Assumptions C16_cleanup_arm_from_source.
+
 (* With I that interval and [tick_ops I tick] what a tick does: a waiting half that arrived
    at time a survives every tick <= a + I (so a second half arriving within I is correlated:
    C02's [keeps_run] holds) ... *)
